@@ -449,3 +449,6 @@ func (Zero) Visit(uint64, int) bool { return true }
 // Seq runs body as a single execution with default choices (used by explicit-state parts that need the
 // virtual clock but no schedule exploration).
 func Seq(cfg Config, body func()) *Sched { return Run(Zero{}, cfg, body) }
+
+// PointWhen is a scheduling point of harness fakes whose operation is enabled only when en() holds.
+func PointWhen(name string, en func() bool) { point(name, en) }
